@@ -16,6 +16,7 @@ EXPLANATION = (
     "projection unification compares (engine_unify.unify_value uses `signature`, which strips quotes). Reflexivity/symmetry/transitivity for all "
     "values (NaN constants etc.) are value-level and not decided."
     " Added after seed round 6: H8 a class whose equality is its printed form and whose hash is a stored field prints that field unchanged."
+    " Added after seed round 8: H9 Term.__hash__ reads no lazily filled memo field."
 )
 TECHNIQUE = "static analysis: class-hierarchy rule + key-projection extraction from __eq__/__hash__ bodies"
 LEVEL_TEXT = EXPLANATION
@@ -426,11 +427,25 @@ def rule_h9(repo, col):
     # memo fields: attributes assigned None in __init__ and assigned a computed value in exactly one other method
     init = c.methods.get("__init__")
     memo_fields = set()
-    for st in ast.walk(init.node):
-        if isinstance(st, ast.Assign) and isinstance(st.value, ast.Constant) and st.value.value is None:
-            for t_ in st.targets:
-                if is_self_attr(t_):
-                    memo_fields.add(t_.attr)
+    # __init__ and the private helpers it calls (transitively) that set fields to None
+    todo, seen_m = [init], set()
+    while todo:
+        fm = todo.pop()
+        if fm is None or fm.name in seen_m:
+            continue
+        seen_m.add(fm.name)
+        for st in ast.walk(fm.node):
+            if isinstance(st, ast.Assign) and isinstance(st.value, ast.Constant) and st.value.value is None:
+                for t_ in st.targets:
+                    if is_self_attr(t_):
+                        memo_fields.add(t_.attr)
+            if isinstance(st, ast.Call) and isinstance(st.func, ast.Attribute) and norm(st.func.value) == "self":
+                nm_ = st.func.attr
+                for cand in (nm_, "_%s%s" % (c.name, nm_) if nm_.startswith("__") else nm_):
+                    if cand in c.methods:
+                        todo.append(c.methods[cand])
+                    elif nm_ in c.methods:
+                        todo.append(c.methods[nm_])
     own = set()
     for st in ast.walk(f.node):
         if isinstance(st, ast.Assign):
